@@ -838,6 +838,21 @@ fn catalogue_inner(prop: &str, t: Tier, seed: u64, out: &mut Vec<Entry>) {
             c04_family::<Marlin>(t, seed, out);
             c04_family::<Sonic>(t, seed, out);
             c04_family::<Ipa>(t, seed, out);
+            // keys of different requests from one universal string (Sonic: a bounded commitment is one group element)
+            for (d, enforced_a) in [(3usize, vec![1usize]), (2, vec![1, 3]), (3, vec![])] {
+                let quick = t == Tier::Quick;
+                let (maxd, sup) = if quick { (4usize, 3usize) } else { (6, 5) };
+                let d = if quick { d } else { d + 2 };
+                let enforced_a: Vec<usize> = enforced_a.iter().map(|b| if quick || *b == 1 { *b } else { *b + 2 }).collect();
+                let mut c = Cfg::new(Size::uni(maxd, sup, 0), vec![PolySpec::new(2)]);
+                c.seed = seed;
+                c.enforced = if enforced_a.is_empty() { None } else { Some(enforced_a.clone()) };
+                let mut en = e(format!("sonic/foreign-key-bound-d{}-vk{:?}", d, enforced_a).replace(' ', ""), t, "coefficients, point, challenges", format!("max_degree {}, supported {}; verifier key trimmed for bounds {:?}, commitment made under bound {} by another key of the same parameters", maxd, sup, enforced_a, d), move || c04::sonic_foreign_bound(&c, d));
+                en.funcs = vec!["SonicKZG10::{trim,commit,open,check,check_elems}", "sonic_pc::VerifierKey::get_shift_power"];
+                en.lim.deep_first = true;
+                if quick { en.lim.wall_s = 45.0; }
+                out.push(en);
+            }
         }
         "C05" => {
             c05_family::<Marlin>(t, seed, out);
